@@ -36,6 +36,11 @@ RECURSIVE BitsFrom(_, _)
 BitsFrom(sigma, b) == IF Pow(2, b) >= sigma THEN b ELSE BitsFrom(sigma, b + 1)
 Bits(sigma) == BitsFrom(sigma, 0)
 
+\* a q-gram code fits the machine word (precondition of qgrams / rev_qgrams / QGramIndex); for a
+\* single-symbol alphabet bits = 0 and every q >= 1 is legal
+WordBits == 64
+Legal(sigma, q) == q >= 1 /\ Bits(sigma) * q <= WordBits
+
 Members(syms) == {syms[i] : i \in 1..Len(syms)}
 RankOf(A, a) == Cardinality({x \in A : x < a})
 
